@@ -1879,7 +1879,7 @@ def run(ck: Check) -> None:
     campaign_modpass(ck, 300 if quick else 3000)
     campaign_worklist(ck, 120 if quick else 1200)
     c06_walk.campaign_walk_model(ck, 300 if quick else 3000)
-    c06_walk.campaign_walk(ck, 60 if quick else 1200)
+    c06_walk.campaign_walk(ck, 150 if quick else 1200)
     campaign_e2e(ck, 100 if quick else 600)
     c06_dedupe.campaign_collide(ck, 80 if quick else 800, 3 if quick else 4)
     c06_dedupe.campaign_pass(ck, 300 if quick else 3000, 4 if quick else 5)
